@@ -150,7 +150,7 @@ def run(ctx):
             # the one item the command is about: everything else the spa holds for its devices must read as before
             target = {"mode": lambda: p._user_demand["demand"], "turn": lambda: st_key, "target": lambda: "SetpointG", "unit": lambda: "TempUnits", "wc": lambda: None}[kind]()
             collateral = [(k, before[k], after[k]) for k in watched if k != target and before[k] != after[k]]
-            out.append({"snap": snap, "desc": desc, "collateral": collateral, "gate": (spa.is_connected, spa.is_responding_to_pings, round(loop.time() - 1000, 1)), "expr": "chk_cmd %s %s (%d, %d) (%s) [%s] (%d, %d)" % (cctx, vf.zb(blk), ctr[0], ctr[1], ck, "; ".join(lits), ctr2[0], ctr2[1]),
+            out.append({"snap": snap, "desc": desc, "collateral": collateral, "versions": (spa.pack_type, spa.config_version, spa.log_version), "gate": (spa.is_connected, spa.is_responding_to_pings, round(loop.time() - 1000, 1)), "expr": "chk_cmd %s %s (%d, %d) (%s) [%s] (%d, %d)" % (cctx, vf.zb(blk), ctr[0], ctr[1], ck, "; ".join(lits), ctr2[0], ctr2[1]),
                         "sent": lits, "readback_ok": (check() if check else None),
                         "mirror": spa.struct.status_block == peer.sim.structure.status_block})
         await cl.close()
@@ -178,6 +178,12 @@ def run(ctx):
             for l in r["sent"]:
                 parts = l.strip("()").split()
                 seq = int(parts[1])
+                # the command names the connected pack's type and its config / log structure versions, in that order
+                if parts[0] == "SpackSet" and (int(parts[2]), int(parts[3]), int(parts[4])) != tuple(r["versions"]):
+                    ctx.fail("command:versions", "set-value command %s carries (pack type, config version, log version) = %r, the connected pack is %r" % (
+                        r["desc"], (int(parts[2]), int(parts[3]), int(parts[4])), tuple(r["versions"])), {"snapshot": snap, "command": r["desc"], "datagram": l, "connected": r["versions"]})
+                if parts[0] == "SpackKey" and int(parts[2]) != r["versions"][0]:
+                    ctx.fail("command:versions", "key-press command %s carries pack type %s, the connected pack is %r" % (r["desc"], parts[2], r["versions"][0]), {"snapshot": snap, "command": r["desc"], "datagram": l})
                 if parts[0] in ("SpackSet", "SpackKey") and not 192 <= seq <= 255:
                     ctx.fail("command:seq", "pack command numbered %d (outside 192..255)" % seq, {"snapshot": snap, "command": r["desc"], "datagram": l})
     for s in meta[:2] + meta[-1:]:
